@@ -1,4 +1,60 @@
-import LecModel
+/-
+  C03 — A reconstructed fragment is byte-identical to the fragment encode produced.
+
+  `fidelity`      for every fragment list drawn from the stripe whose missing set is within
+                  tolerance and every destination 0 ≤ d < k+m — missing or supplied — reconstruct
+                  returns exactly the fragment encode produced for d: header, metadata checksum,
+                  payload checksum and payload (the whole byte string is equal);
+  `out_of_range`  a destination outside 0..k+m-1 is rejected with EINVALIDPARAMS;
+  `fidelity_rs`   Reed–Solomon instance (data rows of the inverse; parity rows by substitution of
+                  the missing-data equations), every k ≥ 1, k+m ≤ 32.
+-/
+import LecProofs.Instances
 import LecGen
 namespace LecProps.C03
+open Lec
+
+theorem fidelity (env : Env) (be : Backend) (i : Inst) (data : Bytes) (enc frags : List Bytes)
+    {tol : List Nat → Prop} {bsOK : Nat → Prop}
+    (hE : EncodeOK be i.k i.m bsOK) (hD : DecodeOK be i.k i.m tol bsOK)
+    (hbs : bsOK (blockSize i data.length)) (hok : FrontOK env i data.length)
+    (henc : encode env be i data = .ok enc) (hsub : ∀ f ∈ frags, f ∈ enc)
+    (htol : tol (missingOfStripe enc frags)) (hmiss : (missingOfStripe enc frags).length ≤ i.m)
+    (dest : Nat) (hd : dest < i.k + i.m) :
+    reconstruct env be i frags (80 + blockSize i data.length) dest = .ok (enc.getD dest []) := by
+  have := reconstruct_fidelity env be i data enc frags hE hbs hok henc hsub hD htol hmiss (dest : Int)
+    (by omega) (by omega)
+  simpa using this
+
+theorem out_of_range (env : Env) (be : Backend) (i : Inst) (frags : List Bytes) (fragLen : Nat) (dest : Int)
+    (h : dest < 0 ∨ dest ≥ ((i.k + i.m : Nat) : Int)) :
+    reconstruct env be i frags fragLen dest = .error (.rc (-EINVALIDPARAMS)) :=
+  reconstruct_range env be i frags fragLen dest h
+
+theorem fidelity_rs (env : Env) (k m ct : Nat) (hk : 1 ≤ k) (hkm : k + m ≤ 32) (hct : ct < 256)
+    (hlv : env.libver < 2 ^ 32) (hl0 : env.libver ≠ 0)
+    (data : Bytes) (hlen : data.length < 2 ^ 31 - 2 ^ 12) (enc frags : List Bytes)
+    (henc : encode env (rsBackend (genEntry k) k m) (rsInst k m ct) data = .ok enc)
+    (hsub : ∀ f ∈ frags, f ∈ enc) (hmiss : (missingOfStripe enc frags).length ≤ m)
+    (dest : Nat) (hd : dest < k + m) :
+    reconstruct env (rsBackend (genEntry k) k m) (rsInst k m ct) frags
+        (80 + blockSize (rsInst k m ct) data.length) dest = .ok (enc.getD dest []) :=
+  fidelity env _ (rsInst k m ct) data enc frags (rs_encodeOK k m) (rs_decodeOK (by omega))
+    (blockSize_even _ _ hk rfl) (rs_frontOK env k m ct data.length hk hkm hct hlv hl0 hlen) henc hsub
+    hmiss hmiss dest hd
+
+/-- non-vacuity: (2,1), the parity fragment rebuilt from the two data fragments is identical. -/
+example :
+    (let env : Env := { libver := 0x010604, legacy := false }
+     match encode env (rsBackend (genEntry 2) 2 1) (rsInst 2 1 2) [9, 8, 7, 6, 5] with
+     | .ok enc =>
+       (match reconstruct env (rsBackend (genEntry 2) 2 1) (rsInst 2 1 2) (enc.take 2) 84 2 with
+        | .ok f => f == enc.getD 2 []
+        | .error _ => false)
+     | .error _ => false) = true := by
+  decide +kernel
+
+#print axioms fidelity
+#print axioms out_of_range
+#print axioms fidelity_rs
 end LecProps.C03
